@@ -1105,7 +1105,7 @@ class HtmlWriter:
             raise skoolmacro.MacroParsingError("Unknown page ID: {}".format(page_id))
         if link_text == '':
             if anchor and page_id in self.page_ids and page_id in self.box_pages:
-                for item_anchor, title, paragraphs in self.box_pages[page_id]:
+                for item_anchor, title, *_ in self.box_pages[page_id]:
                     if anchor[1:] == item_anchor:
                         link_text = title
                         break
